@@ -662,3 +662,38 @@ fire("c11_mutable_prop_accepted", "C11", [(TYPING, "            if is_valid_prop
 fire("c11_sibling_polarity", "C11", [(TYPING, "                if res != InvalidTypeReason.OK:\n                    incorrect_fields.append((field_name, res.value, field_type))", "                if res == InvalidTypeReason.OK:\n                    incorrect_fields.append((field_name, res.value, field_type))")], "R-CLASSIFY-SIBLING")
 fire("c11_no_definition_check", "C11", [(NODE, "        if not check_annotations(cls, ASTNode) and config.TRACE_LOGGING:", "        if config.TRACE_LOGGING:")], "R-CLASSIFY-SIBLING")
 silent("c11_equivalent", "C11", [(TYPING, "            if res == InvalidTypeReason.OK:\n                child_fields[f] = get_type_info(ftype)\n            else:\n                incorrect_fields.append((f.name, res.value, ftype))", "            if res != InvalidTypeReason.OK:\n                incorrect_fields.append((f.name, res.value, ftype))\n            else:\n                child_fields[f] = get_type_info(ftype)")])
+
+# ---------------------------------------------------------------- C20
+fire("c20_F20_reverted", "C20", [(LXPATH, '        return int("".join(args))\n', "        return int(args[0])\n")], "R-GRAM-ARITY")
+fire("c20_dfs_no_reverse", "C20", [(LNODE, "                for c in reversed(child.children):\n                    build_queue.appendleft(c)", "                for c in child.children:\n                    build_queue.appendleft(c)")], "R-WORKLIST")
+fire("c20_dfs_fifo", "C20", [(LNODE, "            if bottom_up:\n                for c in child.get_child_nodes():\n                    build_queue.appendleft(c)", "            if bottom_up:\n                for c in child.get_child_nodes():\n                    build_queue.append(c)")], "R-WORKLIST")
+fire("c20_bfs_lifo", "C20", [(LNODE, "        queue: t.Deque[AwareASTNode] = deque([self])\n\n        while queue:\n            child = queue.popleft()", "        queue: t.Deque[AwareASTNode] = deque([self])\n\n        while queue:\n            child = queue.pop()")], "R-WORKLIST")
+fire("c20_skip_self_not_reset", "C20", [(LNODE, "                if prune and prune(child):\n                    continue\n            else:\n                skip_self = False\n\n            # Walk through children\n            queue.extend", "                if prune and prune(child):\n                    continue\n\n            # Walk through children\n            queue.extend")], "R-CTRLDEP")
+fire("c20_prune_skips_filter", "C20", [(LNODE, '''            if not skip_self:
+                if filter is None or filter(child):
+                    yield child
+
+                if prune and prune(child):
+                    continue
+''', '''            if not skip_self:
+                if prune and prune(child):
+                    continue
+
+                if filter is None or filter(child):
+                    yield child
+''')], "R-CTRLDEP")
+fire("c20_gather_no_skip_self", "C20", [(LNODE, "self.dfs(prune=prune, filter=filter_fn, bottom_up=False, skip_self=skip_self)", "self.dfs(prune=prune, filter=filter_fn, bottom_up=False)")], "R-GATHER")
+fire("c20_xpath_spell_no_index", "C20", [(LNODE, "[{node.parent_index or '0'}]{node.__class__.__name__}\"", "[0]{node.__class__.__name__}\"")], "R-LEG-XPATH-SPELL")
+fire("c20_legacy_step_ignores_field", "C20", [(LXPATH, "        and (element.parent_field is None or element.parent_field == c_parent_field)\n", "")], "R-XP-SHARED")
+fire("c20_legacy_xpath_escape", "C20", [(LXPATH, "        except Exception as e:\n            raise ASTXpathDefinitionError(\"Incorrect xpath definition\") from e\n", "")], "R-EXC-ESCAPE")
+
+# ---------------------------------------------------------------- C18
+fire("c18_F16_reverted", "C18", [(LNODE, "        elif node.parent is self:", "        elif node.parent == self:")], "R-LEG-IDENT")
+fire("c18_reset_only_self", "C18", [(LNODE, "        while node is not None:\n            node._set_content_id()\n            node = node.parent", "        if node is not None:\n            node._set_content_id()")], "R-LEG-PROPAGATE")
+fire("c18_no_reset_on_removal", "C18", [(LNODE, "        if new is None or old.content_id != new.content_id:\n            self._reset_content_id()", "        if new is not None and old.content_id != new.content_id:\n            self._reset_content_id()")], "R-LEG-PROPAGATE")
+fire("c18_no_index_shift", "C18", [(LNODE, "                for c in t.cast(t.Iterable[AwareASTNode], orig_seq[index + 1 :]):\n                    c._set_parent(self, field, t.cast(int, c.parent_index) - 1)\n", "")], "R-LEG-LINK")
+fire("c18_attach_wrong_index", "C18", [(LNODE, "            c._set_parent(self, f, i)\n\n        # Now we can safely attach", "            c._set_parent(self, f, None)\n\n        # Now we can safely attach")], "R-LEG-LINK")
+fire("c18_detach_keeps_parent", "C18", [(LNODE, "        for c in self.get_child_nodes():\n            c._clear_parent()\n\n            if not only_self:", "        for c in self.get_child_nodes():\n            if not only_self:")], "R-LEG-LINK")
+fire("c18_set_parent_object", "C18", [(LNODE, '        object.__setattr__(self, "_parent_index", index)\n\n    def __post_serialize__', '        object.__setattr__(self, "_parent_index", None)\n\n    def __post_serialize__')], "R-LEG-LINK")
+fire("c18_digest_includes_origin", "C18", [(LNODE, '        hasher.update(self.__class__.__name__.encode("utf-8"))\n        for val, f in sorted(\n            self.get_properties(\n                skip_id=True,', '        hasher.update(self.__class__.__name__.encode("utf-8"))\n        hasher.update(f":{self.origin.fqn}".encode("utf-8"))\n        for val, f in sorted(\n            self.get_properties(\n                skip_id=True,')], "R-LEG-DIGEST")
+fire("c18_digest_no_index", "C18", [(LNODE, '            hasher.update(f":{f.name}[{resolved_index}]=".encode("utf-8"))', '            hasher.update(f":{f.name}=".encode("utf-8"))')], "R-LEG-DIGEST")
